@@ -574,10 +574,33 @@ func helloFragments(r *mon.Run, keys []echgen.KeyPair) {
 	grng := r.Rand("hellofrag-gen", 0)
 	nh := r.N(2, 12)
 	for h := 0; h < nh; h++ {
-		for _, kind := range []string{"plain", "plain-keys", "ech", "ech-retry"} {
+		for _, kind := range []string{"plain", "plain-keys", "ech", "ech-retry", "plain-big"} {
 			k := keys[grng.IntN(len(keys))]
 			j := job{kind: kind}
 			switch kind {
+			case "plain-big":
+				// a hello larger than one record: the client has to fragment it and so has the Conn (1..16384 bytes per record)
+				o := hellogen.RandomOpts(grng)
+				o.ECH = hellogen.ECHNone
+				o.TargetSize = []int{16385, 16384 + 200, 20000, 32768, 40000}[h%5]
+				j.msg = hellogen.Plain(grng, o).Message()
+				j.want = j.msg
+				if h%2 == 0 {
+					j.ks = []ech.Key{k.TLSKey()}
+				}
+				for _, c := range []int{16384, 1, len(j.msg) - 1, 16000, len(j.msg) - 16384} {
+					if c > 0 && c < len(j.msg) && len(j.msg)-c <= 16384*3 {
+						jj := j
+						jj.cuts = []int{c}
+						for next := c + 16384; next < len(j.msg); next += 16384 {
+							jj.cuts = append(jj.cuts, next)
+						}
+						if c <= 16384 {
+							jobs = append(jobs, jj)
+						}
+					}
+				}
+				continue
 			case "plain", "plain-keys":
 				o := hellogen.RandomOpts(grng)
 				o.ECH = hellogen.ECHNone
